@@ -212,6 +212,17 @@ static const char* show_format(Format f)
     return "?";
 }
 
+static std::string show_patch(const Patch::Patch& p)
+{
+    std::ostringstream ss;
+    ss << show_format(p.format) << ' ' << show_operation(p.operation) << ' ' << hex(p.index_file_path) << ' ' << hex(p.prerequisite)
+       << ' ' << hex(p.old_file_path) << ' ' << hex(p.new_file_path) << ' ' << hex(p.old_file_time) << ' ' << hex(p.new_file_time)
+       << ' ' << p.old_file_mode << ' ' << p.new_file_mode << ' ' << p.hunks.size();
+    for (const auto& h : p.hunks)
+        ss << ' ' << show_hunk(h);
+    return ss.str();
+}
+
 static std::string exn_kind(const std::exception& e)
 {
     if (dynamic_cast<const std::bad_alloc*>(&e)) return "bad_alloc";
@@ -332,7 +343,97 @@ static std::string respond(Toks& k)
            << " msgs=" << canon_msgs(msgs.str());
         return ss.str();
     }
-    (void)show_format;
+    if (cmd == "strip") {
+        auto path = p_bytes(k);
+        auto n = p_int(k);
+        return "ok " + hex(strip_path(path, static_cast<int>(n)));
+    }
+    if (cmd == "basename") {
+        auto path = p_bytes(k);
+        return "ok " + hex(filesystem::basename(path));
+    }
+    if (cmd == "quoted") {
+        auto str = p_bytes(k);
+        LineParser lp(str);
+        return "ok " + hex(lp.parse_quoted_string());
+    }
+    if (cmd == "fileline") {
+        auto str = p_bytes(k);
+        auto n = p_int(k);
+        LineParser lp(str);
+        std::string path = "\x01unset-path";
+        std::string ts = "\x01unset";
+        lp.parse_file_line(static_cast<int>(n), path, &ts);
+        return "ok " + hex(path) + " " + (ts == "\x01unset" ? std::string("unset") : hex(ts));
+    }
+    if (cmd == "gitname") {
+        auto str = p_bytes(k);
+        auto n = p_int(k);
+        LineParser lp(str);
+        Patch::Patch patch;
+        lp.parse_git_header_name(patch, static_cast<int>(n));
+        return "ok " + hex(patch.old_file_path);
+    }
+    if (cmd == "gitext") {
+        auto str = p_bytes(k);
+        auto n = p_int(k);
+        LineParser lp(str);
+        Patch::Patch patch;
+        bool b = lp.parse_git_extended_info(patch, static_cast<int>(n));
+        std::ostringstream ss;
+        ss << "ok " << (b ? 1 : 0) << ' ' << show_operation(patch.operation) << ' ' << hex(patch.old_file_path) << ' '
+           << hex(patch.new_file_path) << ' ' << patch.old_file_mode << ' ' << patch.new_file_mode;
+        return ss.str();
+    }
+    if (cmd == "urange" || cmd == "nrange") {
+        auto str = p_bytes(k);
+        Hunk h;
+        bool ok = cmd == "urange" ? parse_unified_range(h, str) : parse_normal_range(h, str);
+        std::ostringstream ss;
+        ss << (ok ? 1 : 0) << ' ' << h.old_file_range.start_line << ' ' << h.old_file_range.number_of_lines << ' '
+           << h.new_file_range.start_line << ' ' << h.new_file_range.number_of_lines;
+        return ss.str();
+    }
+    if (cmd == "parse" || cmd == "parseall") {
+        auto bytes = p_bytes(k);
+        auto format = p_format(k);
+        auto strip = static_cast<int>(p_int(k));
+        File file = File::create_temporary_with_content(bytes);
+        auto remaining = [&file]() {
+            size_t n = 0;
+            std::string line;
+            while (file.get_line(line))
+                ++n;
+            return n;
+        };
+        if (cmd == "parse") {
+            auto patch = parse_patch(file, format, strip);
+            std::ostringstream ss;
+            ss << "ok " << show_patch(patch) << " rem=" << remaining();
+            return ss.str();
+        }
+        Parser parser(file);
+        std::vector<Patch::Patch> patches;
+        int guard = 0;
+        while (!parser.is_eof()) {
+            if (++guard > 64)
+                return "loop";
+            Patch::Patch patch(format);
+            PatchHeaderInfo info;
+            bool body = parser.parse_patch_header(patch, info, strip);
+            if (patch.format == Format::Unknown)
+                break;
+            if (body)
+                parser.parse_patch_body(patch);
+            patches.push_back(patch);
+        }
+        std::ostringstream ss;
+        ss << "ok " << patches.size();
+        for (const auto& p : patches)
+            ss << " | " << show_patch(p);
+        ss << " rem=" << remaining();
+        return ss.str();
+    }
     throw std::string("unknown request " + cmd);
 }
 
